@@ -7,10 +7,11 @@ AddrsA == [h \in HostsA |-> CASE h = "mix" -> <<"refuse", "hang", "ok">>
                               [] h = "dead" -> <<"refuse", "refuse">>
                               [] h = "slow" -> <<"hang">>]
 ResolveA == [h \in HostsA |-> "ok"]
-HostsB == {"mix", "rerr", "rhang", "lit"}
+HostsB == {"mix", "rerr", "rhang", "lit", "flaky"}
 AddrsB == [h \in HostsB |-> CASE h = "mix" -> <<"refuse", "ok">>
                               [] h = "rerr" -> <<"ok">>
                               [] h = "rhang" -> <<"ok">>
-                              [] h = "lit" -> <<"hang">>]
-ResolveB == [h \in HostsB |-> CASE h = "mix" -> "ok" [] h = "rerr" -> "error" [] h = "rhang" -> "hang" [] h = "lit" -> "direct"]
+                              [] h = "lit" -> <<"hang">>
+                              [] h = "flaky" -> <<"ok">>]
+ResolveB == [h \in HostsB |-> CASE h = "mix" -> "ok" [] h = "rerr" -> "error" [] h = "rhang" -> "hang" [] h = "lit" -> "direct" [] h = "flaky" -> "flaky"]
 =============================================================================
